@@ -269,6 +269,9 @@ class EffectGraph:
                     if f.attr.endswith("_") and not f.attr.startswith("_") and f.attr not in TENSOR_INPLACE_EXEMPT:
                         fi.effects.append(Effect("inplace", U(f), loc.roots(f.value), n.lineno, True))
                     elif f.attr in MUTATORS and not U(f.value).startswith(("os", "shutil", "warnings")):
+                        own_kw = fi.fn.args.kwarg.arg if fi.fn.args.kwarg else None
+                        if isinstance(f.value, ast.Name) and f.value.id == own_kw and own_kw not in loc.bind:
+                            continue  # the function's own `**kwargs` is a dictionary built for this call: popping from it is local
                         fi.effects.append(Effect("mutator", U(f), loc.roots(f.value), n.lineno, False))
                 for k in n.keywords:
                     if k.arg == "out":
